@@ -50,7 +50,14 @@ class Folder:
         m = getattr(self, "f_" + type(node).__name__, None)
         if m is None:
             raise NotConstant(type(node).__name__)
-        return m(node)
+        try:
+            return m(node)
+        except NotConstant:
+            raise
+        except AnalysisError:
+            raise
+        except Exception as e:  # a builtin rejected the constant (e.g. int('IIII'))
+            raise NotConstant(f"{type(e).__name__}: {e}") from e
 
     def f_Constant(self, n):
         return n.value
